@@ -105,7 +105,9 @@ NoRes == [done |-> FALSE, ok |-> FALSE, err |-> "", at |-> 0]
 
 Faults(ms) == Cardinality({k \in 1..N : ms[k] # "healthy"})
 Timeouts(ms) == Cardinality({k \in 1..N : ms[k] = "timeout"})
-InScope(ms) == Faults(ms) <= MaxFaults /\ (TwoTimeouts \/ Timeouts(ms) <= 1)
+\* every upstream down (the outage the severity clause is about) is always in scope
+AllDown(ms) == \A k \in 1..N : ms[k] \in {"refused", "timeout", "http500", "json5xx", "json503un"}
+InScope(ms) == (Faults(ms) <= MaxFaults \/ AllDown(ms)) /\ (TwoTimeouts \/ Timeouts(ms) <= 1)
 
 Init ==
   /\ modes \in {ms \in [1..N -> ListedModes \cup Extra] : InScope(ms)}
